@@ -7,6 +7,8 @@ package quad
 import (
 	"math"
 	"sync"
+
+	"gonum.org/v1/gonum/internal/verifhook"
 )
 
 // FixedLocationer computes a set of quadrature locations and weights and stores
@@ -139,6 +141,7 @@ func Fixed(f func(float64) float64, min, max float64, n int, rule FixedLocatione
 	for i := 0; i < concurrent; i++ {
 		// Launch workers
 		go func() {
+			qid := verifhook.Actor("Q")
 			defer wg.Done()
 			var subIntegral float64
 			for k := range tasks {
@@ -151,12 +154,15 @@ func Fixed(f func(float64) float64, min, max float64, n int, rule FixedLocatione
 				}
 				f := intfunc(x)
 				subIntegral += f * weight
+				verifhook.Emit(qid, "QEval", int64(k), 0, 0)
 			}
 			mux.Lock()
 			integral += subIntegral
+			verifhook.Emit(qid, "QMerge", 0, 0, 0)
 			mux.Unlock()
 		}()
 	}
 	wg.Wait()
+	verifhook.Emit("Q", "QReturn", int64(n), int64(concurrent), 0)
 	return integral
 }
